@@ -62,11 +62,12 @@ impl VerbatimUrl {
             Cow::Owned(base_dir.as_ref().join(path))
         };
 
+        // Extract the fragment, if it exists. It is not part of the path: normalizing
+        // `pkg.tar.gz#subdirectory=a/../b` as a whole would drop the file name along with `a`.
+        let (path, fragment) = split_fragment(&path);
+
         let path = normalize_absolute_path(&path)
             .map_err(|err| VerbatimUrlError::Normalization(path.to_path_buf(), err))?;
-
-        // Extract the fragment, if it exists.
-        let (path, fragment) = split_fragment(&path);
 
         // Convert to a URL.
         let mut url = Url::from_file_path(path.clone())
@@ -94,12 +95,13 @@ impl VerbatimUrl {
             return Err(VerbatimUrlError::WorkingDirectory(path.to_path_buf()));
         };
 
-        // Normalize the path.
-        let path = normalize_absolute_path(path)
-            .map_err(|err| VerbatimUrlError::Normalization(path.to_path_buf(), err))?;
+        // Extract the fragment, if it exists. It is not part of the path: normalizing
+        // `pkg.tar.gz#subdirectory=a/../b` as a whole would drop the file name along with `a`.
+        let (path, fragment) = split_fragment(path);
 
-        // Extract the fragment, if it exists.
-        let (path, fragment) = split_fragment(&path);
+        // Normalize the path.
+        let path = normalize_absolute_path(&path)
+            .map_err(|err| VerbatimUrlError::Normalization(path.to_path_buf(), err))?;
 
         // Convert to a URL.
         let mut url = Url::from_file_path(path.clone())
